@@ -87,7 +87,11 @@ class DiscoverySpace(spaces.Space):
         return {"name": self.name, "trees": len(TREES), "argument_lists": len(self.arglists), "options": len(self.opts), "size": self._n}
 
 
+_TIER = ["quick"]
+
+
 def space(tier):
+    _TIER[0] = tier
     return DiscoverySpace(3 if tier == "thorough" else 2)
 
 
@@ -252,6 +256,34 @@ def evaluate(payload):
         fail = _judge("cli", exp, listed, errored, r.rc)
         if fail is None and exp[0] == "error" and listed:
             fail = ("cli:files-listed-despite-error", {"listed": listed})
+        if fail is None and (_TIER[0] == "thorough" or len(args) == 1):
+            # the files actually processed by scan / fix are the model's set, once each, in sorted order
+            for mode in ("scan", "fix"):
+                cli = [mode] + (["-r"] if recurse else []) + (["-ae", ae] if ae else []) + list(args)
+                sb2 = app.Sandbox({e: (None if e.endswith("/") else "#  a\n") for e in tree}) if mode == "fix" else sb
+                try:
+                    r = app.run_main(cli, sb2)
+                finally:
+                    if mode == "fix":
+                        sb2.close()
+                res["feeds"] += 1
+                if mode == "scan":
+                    seen = []
+                    for l in r.out.splitlines():
+                        nm = l.split(":", 1)[0]
+                        if nm and (not seen or seen[-1] != nm):
+                            seen.append(nm)
+                else:
+                    seen = [l[len("Fixed: "):] for l in r.out.splitlines() if l.startswith("Fixed: ")]
+                if exp[0] == "error":
+                    if seen:
+                        fail = (f"{mode}:files-processed-despite-error", {"processed": seen})
+                else:
+                    f2 = _judge(mode, exp, seen, False, None) if exp[1] else None
+                    if f2 is not None:
+                        fail = f2
+                if fail:
+                    break
     res["fail"] = fail
     res["outcome"] = fail[0] if fail else (exp[0] + ":" + str(len(exp[1]) if exp[0] == "ok" else exp[1].split(" ")[0]))
     return res
